@@ -211,6 +211,10 @@ def classify(view, sid):
             if nm == "_apply_coarse":
                 return ev
             ev["level"] = view.level(a[0]) if a else None
+            if a and ev["level"] is None:
+                o0 = view.obj(a[0])
+                if o0 is not None and o0[0] == "lvl":
+                    ev["level"] = o0[1]       # sibling overload taking the LevelInfo object of the level
             ev["level_node"] = a[0] if a else None
             if nm in ("_apply_rest", "_apply_prol"):
                 f = view.value(a[1]) if len(a) > 1 else {}
